@@ -90,4 +90,8 @@ Probe(tt) ==
 
 EmitEdge == hist = <<>> \/ PrintT(<<"EDGE", ToJson([c |-> Max, s |-> prev, e |-> hist[Len(hist)], d |-> View, p |-> Probe(t)])>>)
 EmitWalk == Len(hist) < WalkLen \/ (PrintT(<<"WALK", ToJson([c |-> Max, h |-> hist, p |-> Probe(t)])>>) /\ FALSE)
+\* VIEW of the model-checking configurations: TLC evaluates invariants only on states it has not seen before, and "seen" is
+\* decided on the VIEW; a step verdict kept in a ghost variable must therefore be part of it, or a violating edge INTO A KNOWN
+\* STATE would be discarded unexamined (the generation configurations keep the plain View: the verdict is not behaviour)
+ViewM == <<View, okfire, InvCreate>>
 =============================================================================
